@@ -172,4 +172,47 @@ def init (n : Nat) : St := { pcs := List.replicate n .start }
 
 end ER
 
+/-! ## Reference counter vs table (rib.AddEntry / rib.DeleteEntry of one next-hop-group) -/
+
+namespace RC
+
+/-- one group `g` that lists one next-hop `n`; `present` = g is in the table, `cnt` = n's counter -/
+structure St where
+  present : Bool := false
+  cnt : Nat := 0
+  /-- ADD thread: 0 = not started, 1 = installed (remembering whether it replaced), 2 = done -/
+  addPc : Nat := 0
+  addSawOld : Bool := false
+  /-- DELETE thread: 0 = not started, 1 = removed (remembering whether it was there), 2 = done -/
+  delPc : Nat := 0
+  delRemoved : Bool := false
+  deriving DecidableEq, Repr, Inhabited
+
+inductive Th where | add | del
+  deriving DecidableEq, Repr
+
+/-- as written before the repair: table change and counter change are separate steps -/
+def fireSplit (s : St) : Th → St
+  | .add =>
+    if s.addPc = 0 then { s with present := true, addSawOld := s.present, addPc := 1 }
+    else if s.addPc = 1 then { s with cnt := if s.addSawOld then s.cnt else s.cnt + 1, addPc := 2 }
+    else s
+  | .del =>
+    if s.delPc = 0 then { s with present := false, delRemoved := s.present, delPc := 1 }
+    else if s.delPc = 1 then { s with cnt := if s.delRemoved then s.cnt - 1 else s.cnt, delPc := 2 }
+    else s
+
+/-- repaired: each operation is one step (the RIB's transaction mutex) -/
+def fireAtomic (s : St) : Th → St
+  | .add => if s.addPc = 0 then { s with present := true, cnt := if s.present then s.cnt else s.cnt + 1, addPc := 2 } else s
+  | .del => if s.delPc = 0 then { s with present := false, cnt := if s.present then s.cnt - 1 else s.cnt, delPc := 2 } else s
+
+def runSplit (s : St) (sched : List Th) : St := sched.foldl fireSplit s
+def runAtomic (s : St) (sched : List Th) : St := sched.foldl fireAtomic s
+
+/-- counter = number of referrers -/
+def Ok (s : St) : Prop := s.cnt = if s.present then 1 else 0
+
+end RC
+
 end Gribi.Conc
